@@ -11,9 +11,10 @@ package set
 //@ func (g *gen) Generate(typs []types.Type) (err error)
 //@ param typs: len=1
 
+// Generate has checked that the elements can be map keys (types.Comparable)
 //@ func (g *gen) genFuncFor(typ *types.Slice) (err error)
+//@ param typ: elem-comparable
 //@ emits: decls
-//@ o-fork: comparable elem(typ)
 //@ serves: set len=1 typ=typs[0]
 //@ o-sig: (list []$elem(typ)) (r map[$elem(typ)]struct{})
 //@ o-result-fresh
